@@ -813,6 +813,11 @@ func scenarios(out string) {
 	fld("spread-int-slice-into-int-variadic", "sum(sl...)", wantV(int64(3)))
 	fld("spread-script-list-into-int-variadic", "sum([1, 2, 4]...)", wantV(int64(7)))
 	fld("spread-typed-after-fixed", "joinp(\"p\", ss...)", wantV("p:a,b"))
+	// &x.Field / &list[i] on Go values hand Go the address of the field / element itself
+	fld("addr-of-field-to-go", "incr(&hp.A)\nhp.A", wantV(int64(2)))
+	fld("addr-of-string-field-to-go", "setname(&hp.B)\nhp.B", wantV("renamed"))
+	fld("addr-of-typed-element-to-go", "incr(&sl[1])\nsl[1]", wantV(int64(3)))
+	fld("addr-of-field-is-the-field", "sameaddr(&hp.A)", wantV(true))
 	fld("method-value-recv", "hv.Val(10)", wantV(int64(12)))
 	fld("method-value-recv-on-ptr", "hp.Val(10)", wantV(int64(11)))
 	fld("method-ptr-recv-on-ptr", "hp.Ptr(1)\nhp.A", wantV(int64(2)))
@@ -876,6 +881,9 @@ func scenarios(out string) {
 			return p + ":" + strings.Join(parts, ",")
 		})
 		e.Define("gi", func(x int64) int64 { return x })
+		e.Define("incr", func(p *int64) { *p++ })
+		e.Define("setname", func(p *string) { *p = "renamed" })
+		e.Define("sameaddr", func(p *int64) bool { return p == &hp.A })
 		if s.setup != nil {
 			s.setup(e)
 		}
